@@ -15,6 +15,7 @@ Definition show_obs (t : obs) : string :=
   | SawExc e => "x" ++ show_err e
   | Mark n => "m" ++ show_nat n
   | Cancelled d => "c" ++ show_nat d
+  | CancelNow lvl => "k" ++ show_nat lvl
   end.
 
 (** input: body, (processed outcome, canceller) of Deferreds 0..n-1, pre-fired, fired-while-paused before the call, schedule *)
